@@ -18,6 +18,8 @@
 #include <string>
 #include <vector>
 
+#include <mujoco/mujoco.h>
+
 #include "vsim_rt.h"
 
 namespace sd {
@@ -249,6 +251,15 @@ struct Agg {
 inline Agg g_agg;
 inline void probe(const char* name, uint64_t n = 1) { g_agg.probes[name] += n; }
 
+// process-global lazy initialisation in the engine (log configuration from the environment) must not
+// depend on which run of a batch happens to touch it first: trigger it before the first run
+inline void engine_warmup() {
+  auto w = mju_user_warning;
+  mju_user_warning = [](const char*) {};
+  mju_warning("vsim warm-up");
+  mju_user_warning = w;
+}
+
 // begin/end one simulated run
 inline void run_begin(uint64_t seed, const vsim::Config& c) {
   g_seed = seed; g_cfg = c;
@@ -269,6 +280,11 @@ inline void run_end() {
            ",\"cfg\":\"%s\",\"scenario\":\"%s\"}\n", g_seed, vsim::trace_hash(), vsim::stats().points, vsim::stats().switches,
            g_cfg_str, g_scenario.c_str());
   if (g_args.log) { fflush(stdout); vsim::dump_log(1); }
+  auto dd = g_args.opt.find("dumpdec");
+  if (dd != g_args.opt.end()) {   // self-test: record the decision list of a passing run
+    FILE* f = fopen(dd->second.c_str(), "w");
+    if (f) { size_t nd = vsim::ndecisions(); for (size_t i = 0; i < nd; i++) { vsim::Decision d = vsim::decision_at(i); fprintf(f, "%" PRIu64 ":%d ", d.opp, d.val); } fclose(f); }
+  }
 }
 }  // namespace sd
 
